@@ -269,6 +269,14 @@ impl StoreTransaction {
         }
         let block_number: packed::Uint64 = block.number().into();
         self.insert_raw(COLUMN_INDEX, block_number.as_slice(), block_hash.as_slice())?;
+        // the epoch-by-number index follows the main chain: the block that opens an
+        // epoch points the epoch's number at its own epoch record
+        if block.epoch().index() == 0
+            && let Some(epoch_index) = self.get_block_epoch_index(&block_hash)
+        {
+            let epoch_number: packed::Uint64 = block.epoch().number().into();
+            self.insert_raw(COLUMN_EPOCH, epoch_number.as_slice(), epoch_index.as_slice())?;
+        }
         for uncle in block.uncles().into_iter() {
             self.insert_raw(
                 COLUMN_UNCLES,
@@ -287,6 +295,10 @@ impl StoreTransaction {
         for uncle in block.uncles().into_iter() {
             self.delete(COLUMN_UNCLES, uncle.hash().as_slice())?;
         }
+        if block.epoch().index() == 0 && block.number() > 0 {
+            let epoch_number: packed::Uint64 = block.epoch().number().into();
+            self.delete(COLUMN_EPOCH, epoch_number.as_slice())?;
+        }
         let block_number = block.data().header().raw().number();
         self.delete(COLUMN_INDEX, block_number.as_slice())?;
         self.delete(COLUMN_INDEX, block.hash().as_slice())
@@ -302,6 +314,22 @@ impl StoreTransaction {
             COLUMN_BLOCK_EPOCH,
             block_hash.as_slice(),
             epoch_hash.as_slice(),
+        )
+    }
+
+    /// Inserts the epoch extension data of a block that opens an epoch, on any branch.
+    ///
+    /// The epoch-by-number index is not touched: it belongs to the main chain and is
+    /// written by `attach_block`.
+    pub fn insert_epoch_ext_record(
+        &self,
+        hash: &packed::Byte32,
+        epoch: &EpochExt,
+    ) -> Result<(), Error> {
+        self.insert_raw(
+            COLUMN_EPOCH,
+            hash.as_slice(),
+            Into::<packed::EpochExt>::into(epoch).as_slice(),
         )
     }
 
